@@ -286,6 +286,34 @@ PROPS = {
                       'closed function that reproduces every implementation hash bit for bit, incl. in child processes.',
         'level_note': 'Trusted: Coq kernel; hand-written bit-exact hash model; 64-bit collision-freedom cannot be proved; harness (reflect read of scrape.Target.labels).',
     },
+    'C16': {
+        'engines': [('cfghash', 120, 1500, ['-shardsize', '12'])],
+        'rule': 'edit catalogue over two base configurations (one rich: global, rules, alerting incl. relabeling and basic auth, two jobs with '
+                'params/proxy URL with user info/basic auth/TLS/relabel/metric relabel/static+kubernetes+dns discovery/authorization, remote write '
+                'with URL user info + write relabel + queue, remote read; one minimal without global): 39 single-SETTING edits (each scalar kind, '
+                'list entry added/removed, regex-only edits in 5 places, secrets, URL host/user/password, discovery options), 5 EXTERNAL-label edits '
+                '(value, added, removed, block removed, added where there is no global section), 8 FORMATTING edits (comments, blank lines, block vs '
+                'flow lists, quoting, key order, spacing), each combined with 0-2 extra noise; every edit once per run, then random ones. Base and '
+                'edited text are hashed by the real ConfigManager.ReloadFromRaw, one of them in a CHILD PROCESS. Observed: ConfigHash equal?, and '
+                'the struct-only hashstructure hash equal? Both texts are parsed with yaml.v2 into the generic document given to the model. '
+                'non-trivial = all; distinct by input',
+        'theorems': 'C16_blind C16_sensitive C16_leaves C16_struct_blind_owners C16_code_shape C16_exact C16_every_setting_counts '
+                    'C16_document_injective C16_external_labels C16_only_external_labels',
+        'trusted_base': ['Model/ConfigHash.v: hand-written model of the hashstructure v2 traversal (term instead of number), validated on every run: the '
+                         'struct-only hash of the real library changes exactly for edits whose path the model calls visible in the GENERATED type graph',
+                         'Gen/ConfigTypes.v: reflect over config.Config of the linked Prometheus library (25 discovery config types listed by hand in the '
+                         'translator); Gen/Consts.v hash_*: go/ast recogniser of the hashing call in pkg/prom/config.go',
+                         'YAML parsing (text -> document, text -> config) is outside the model: "formatting" = text changes with the same yaml.v2 document',
+                         'different terms give different 64-bit values only up to FNV-64 collisions'],
+        'assumptions': ['the parsed configuration is a function of the document (config.Load is deterministic)',
+                        'map values are represented canonically (sorted keys) in the model; the real hash combines map entries order-independently'],
+        'level_text': 'Proof: generic theorems about the hashstructure traversal (an edit below a skipped field never changes the term; an edit '
+                      'reached through hashed fields always does), the exact set of struct types of the REGENERATED Prometheus type graph that own '
+                      'skipped fields (Regexp, Userinfo, a test-only hetzner field), the recognised shape of the hashing call (document mixed in, '
+                      'external labels blanked on both sides), and the exact characterisation: terms equal iff struct terms equal and documents '
+                      'equal modulo external labels. Tied by the edit catalogue run through the real ConfigManager in separate processes.',
+        'level_note': 'Trusted: Coq kernel; hand-written traversal model; reflect/ast translators; YAML parser; FNV collision-freedom unprovable.',
+    },
     'C17': {
         'engines': [('discovery', 300, 6000, ['-shardsize', '50'])],
         'rule': 'histories of 3-8 (3-14 thorough) ops on the REAL TargetsDiscovery.Run (fed through its input channel) + ApplyConfig, with the real '
@@ -368,6 +396,8 @@ def classify(prop, engine, case):
         return 'C20-explore-other'
     if engine == 'store':
         return 'C09-store-%s' % (case.get('observed') or {}).get('Seen')
+    if engine == 'cfghash':
+        return 'C16-' + str((case.get('observed') or {}).get('Name'))
     if engine == 'thash':
         return 'C15-thash'
     if engine == 'discovery':
